@@ -52,6 +52,16 @@ func (m *Mint) checkInvoicePaid(ctx context.Context, quoteId string) {
 	select {
 	case invoice := <-updateChan:
 		if invoice.Settled {
+			// the quote could have been marked as paid (and even issued) by a
+			// state check while waiting. Only an unpaid quote becomes paid.
+			mintQuote, err = m.db.GetMintQuote(quoteId)
+			if err != nil {
+				m.logErrorf("could not get mint quote '%v' from db: %v", quoteId, err)
+				return
+			}
+			if mintQuote.State != nut04.Unpaid {
+				return
+			}
 			m.logInfof("received update from invoice sub. Invoice for mint quote '%v' is PAID", mintQuote.Id)
 			mintQuote.State = nut04.Paid
 			if err := m.db.UpdateMintQuoteState(mintQuote.Id, mintQuote.State); err != nil {
